@@ -92,11 +92,11 @@ impl<N, E, Ix: IndexType> Acyclic<StableDiGraph<N, E, Ix>> {
                 // freed slot: that node then needs its position under its
                 // new index.
                 /*+*/proof { self.graph.lemma_nbound(); assert(nlive(self.graph.ns(), n.i())); let b = self.graph.nbound(); assert(nlive(self.graph.ns(), b - 1)); }/*-*/
+                /*+*/let ghost gpre = self.graph; let ghost om1 = self.order_map;/*-*/
                 let last = NodeIndex::new(self.graph.node_bound() - 1);
-                /*+*/proof { self.graph.lemma_nbound(); Ix::ix_bound(n.0); let ll: NodeIndex<Ix> = last; assert(ll.i() == self.graph.nbound() - 1); assert(nlive(self.graph.ns(), ll.i())); }
-                let ghost om1 = self.order_map;/*-*/
                 let weight = self.graph.remove_node(n);
-                /*+*/proof { Ix::eq_law(); if last.i() != n.i() { assert(nlive(self.graph.ns(), last.i())); } }/*-*/
+                /*+*/proof { gpre.lemma_nbound(); Ix::ix_bound(n.0); let ll: NodeIndex<Ix> = last; assert(ll.i() == gpre.nbound() - 1); assert(nlive(gpre.ns(), ll.i()));
+                    Ix::eq_law(); if last.i() != n.i() { assert(nlive(self.graph.ns(), last.i())); } }/*-*/
                 if last != n && self.graph.node_weight(last).is_none() {
                     self.order_map.rename_node(last, n, &self.graph);
                 }
